@@ -45,6 +45,30 @@ def checkC08 (toks : List String) (res : String) : Option Verdict :=
     some { model := showRes showNum m, spec := spec, cls := cls,
            branch := ops ++ "/" ++ mode.toString ++ (if tie then "/tie" else "") ++ (if nearLimit && op == .div then "/nearlimit" else ""),
            nontrivial := spec.isSome }
+  | ["asg", ops, mode, lt, rt, l, r] => do
+    -- compound assignment `a op= b` (b a rounding_integer or a built-in integer): `a = static_cast<A>(a op b)`,
+    -- the operator still rounds as the tag prescribes
+    let op ← parseBinOp ops; let mode ← parseRdMode mode; let L ← parseIntTy lt; let R ← parseIntTy rt
+    let l ← l.toInt?; let r ← r.toInt?
+    -- (the conversion back to `A` converts the representation; the layered cast only knows native tags)
+    let m : Res Num := do
+      let w ← Layered.bin op (.rd (.int L) mode, l) (.rd (.int R) mode, r)
+      match w.1 with
+      | .rd (.int T) _ => pure (.rd (.int L) mode, (convert L (T, w.2)).2)
+      | _ => .ill "unexpected result type"
+    let T := usualArith L R
+    let conv := T.wrap l == l && T.wrap r == r
+    let spec : Option Bool :=
+      match op with
+      | .div =>
+        if r == 0 || !conv then none else
+        let q := roundDiv (modeOf mode) l r
+        if T.inRange q then some (res == s!"rd({L.toString},{mode.toString}):{L.wrap q}") else none
+      | _ =>
+        match cBin op (L, l) (R, r) with
+        | .ok v => some (res == s!"rd({L.toString},{mode.toString}):{L.wrap v.2}")
+        | _ => none
+    some { model := showRes showNum m, spec := spec, branch := "asg/" ++ ops ++ "/" ++ mode.toString, nontrivial := spec.isSome }
   | ["cmp", ops, mode, lt, rt, l, r] => do
     -- comparisons behave exactly like the built-in ones (whichever operand is wrapped)
     let op ← parseCmpOp ops; let mode ← parseRdMode mode; let L ← parseIntTy lt; let R ← parseIntTy rt
